@@ -1,0 +1,52 @@
+//go:build verif
+
+package referenceclient
+
+// Contracts for raw_request.go (C17): the goroutine that feeds the request body writes
+// exactly the specified raw body (message or enveloped stream) to the pipe and nothing else.
+
+//@ spec wfRawRequest(req *conformancev1.RawHTTPRequest) bool =
+//@    (typeis(req.Body, *conformancev1.RawHTTPRequest_Unary) ==> unbox(req.Body, *conformancev1.RawHTTPRequest_Unary) != nil && knownData(unbox(req.Body, *conformancev1.RawHTTPRequest_Unary).Unary)) &&
+//@    (typeis(req.Body, *conformancev1.RawHTTPRequest_Stream) ==> unbox(req.Body, *conformancev1.RawHTTPRequest_Stream) != nil && unbox(req.Body, *conformancev1.RawHTTPRequest_Stream).Stream != nil &&
+//@         wfItems(unbox(req.Body, *conformancev1.RawHTTPRequest_Stream).Stream.Items))
+//@ spec reqBodyWire(req *conformancev1.RawHTTPRequest) string =
+//@    typeis(req.Body, *conformancev1.RawHTTPRequest_Unary) ? msgWire(unbox(req.Body, *conformancev1.RawHTTPRequest_Unary).Unary) :
+//@    (typeis(req.Body, *conformancev1.RawHTTPRequest_Stream) ?
+//@        streamWire(unbox(req.Body, *conformancev1.RawHTTPRequest_Stream).Stream.Items, len(unbox(req.Body, *conformancev1.RawHTTPRequest_Stream).Stream.Items)) : "")
+
+//@ func (*rawRequestSender).RoundTrip$1$1
+//@   modifies nothing
+
+//@ func (*rawRequestSender).RoundTrip$1
+//@   requires r != nil && r.rawRequest != nil && wfRawRequest(r.rawRequest) && pipeWriter != nil
+//@   modifies wrOut, bufContent, cmpDst, cmpBuf, cmpBase, cmpBaseB, rawErr
+//@   ensures @body rawErr[0] == nil || !(typeis(r.rawRequest.Body, *conformancev1.RawHTTPRequest_Unary) || typeis(r.rawRequest.Body, *conformancev1.RawHTTPRequest_Stream)) ==>
+//@        streq(wrOut[box(pipeWriter)], old(wrOut[box(pipeWriter)]) + old(reqBodyWire(r.rawRequest)))
+//@   ensures @others forall w io.Writer :: w != box(pipeWriter) ==> wrOut[w] == old(wrOut[w])
+
+// The goroutine that drains and closes the original request body.
+//@ func (*rawRequestSender).RoundTrip$2$1
+//@   requires orig != nil && orig.Body != nil
+//@   modifies nothing
+//@ func (*rawRequestSender).RoundTrip$2
+//@   requires orig != nil && orig.Body != nil
+//@   modifies rdPos, wrOut
+
+//@ elemvalues []*conformancev1.Header: v != nil
+//@ elemvalues []*conformancev1.RawHTTPRequest_EncodedQueryParam: v != nil && knownData(v.Value)
+
+// RoundTrip: whenever a request is handed to the wrapped transport it is the one built here,
+// with the given verb, the pipe as its body (fed by the goroutine above with exactly the raw
+// body) and one Header.Add per given header value, in order, on its header map.
+// Assumed of callers: the original request has a URL and a body (connect-go always sets one).
+//@ func (*rawRequestSender).RoundTrip
+//@   requires r != nil && r.rawRequest != nil && r.transport != nil && wfRawRequest(r.rawRequest) && hAddN[0] >= 0
+//@   requires orig != nil && orig.URL != nil && orig.Body != nil
+//@   modifies nrN, nrMethod, nrBody, nrReq, rtReq, hAddN, hAddH, hAddKey, hAddVal, map[string][]string, []string, http.Request.ContentLength, url.URL.RawQuery,
+//@            wrOut, bufContent, cmpDst, cmpBuf, cmpBase, cmpBaseB, rawErr, rdPos
+//@   ensures @sent rtReq[0] != old(rtReq[0]) ==> nrN[0] == old(nrN[0]) + 1 && rtReq[0] == nrReq[0] && nrMethod[0] == r.rawRequest.Verb
+//@   ensures @headers rtReq[0] != old(rtReq[0]) ==> hAddN[0] == old(hAddN[0]) + flatLen(r.rawRequest.Headers, len(r.rawRequest.Headers)) &&
+//@       (forall j int, i int :: 0 <= j && j < len(r.rawRequest.Headers) && 0 <= i && i < len(r.rawRequest.Headers[j].Value) ==>
+//@        hAddH[at(old(hAddN[0]) + flatLen(r.rawRequest.Headers, j), i)] == nrReq[0].Header &&
+//@        hAddKey[at(old(hAddN[0]) + flatLen(r.rawRequest.Headers, j), i)] == r.rawRequest.Headers[j].Name &&
+//@        hAddVal[at(old(hAddN[0]) + flatLen(r.rawRequest.Headers, j), i)] == r.rawRequest.Headers[j].Value[i])
